@@ -292,14 +292,21 @@ def crystal_dimer_checks(part, seed):
         "B": (14, "b1", (8.4, 11.3, 8.1, 90.0, 117.0, 90.0), rot((-1, 0.5, 2), 1.9), (0.27, 0.62, 0.19)),
         "C": (2, "", (6.9, 7.4, 8.8, 77.0, 98.0, 111.0), rot((0, 1, 1), 2.6 + 0.1 * seed), (0.24, 0.31, 0.22)),
         "D": (14, "b1", (7.9, 8.7, 9.6, 90.0, 104.0, 90.0), rot((2, -1, 1), 1.1), (0.21, 0.13, 0.28)),
+        # degenerate groups: P1 (one operation) with TWO independent molecules of the same kind in different orientations, and the same in P-1
+        "E": (1, "", (7.3, 8.1, 8.9, 81.0, 97.0, 104.0), rot((1, 2, 3), 0.4), (0.22, 0.21, 0.27), (rot((0, 1, 1), 2.1), (0.71, 0.68, 0.74))),
+        "F": (2, "", (8.9, 9.4, 10.8, 77.0, 98.0, 111.0), rot((0, 1, 1), 2.6), (0.2, 0.22, 0.2), (rot((2, -1, 1), 1.1), (0.55, 0.2, 0.7))),
     }
 
     def build(k):
         scatter = k.endswith("*")
-        n, ch, cell, Q, centre = specs[k.rstrip("*")]
+        n, ch, cell, Q, centre = specs[k.rstrip("*")][:5]
         M = lattice.cell_matrix(*cell)
         cart = np.array(centre) @ M + tmpl @ Q.T
         frac = cart @ np.linalg.inv(M)
+        if len(specs[k.rstrip("*")]) > 5:
+            Q2, centre2 = specs[k.rstrip("*")][5]
+            frac2 = (np.array(centre2) @ M + tmpl @ Q2.T) @ np.linalg.inv(M)
+            return xtal.make_crystal(n, ch, cell, syms + syms, np.vstack([frac, frac2]))
         c0 = xtal.make_crystal(n, ch, cell, syms, frac)
         if scatter:
             # the asymmetric unit is NOT one connected molecule: two of its atoms are listed at symmetry-equivalent sites (images under
@@ -311,7 +318,7 @@ def crystal_dimer_checks(part, seed):
             c0 = xtal.make_crystal(n, ch, cell, syms, frac)
         return c0
 
-    for order in (("A", "B", "C", "D", "A"), ("D", "C", "B", "A"), ("B", "A"), ("C", "A", "D"), ("A*", "B*"), ("C*", "D*", "A")):
+    for order in (("A", "B", "C", "D", "A"), ("D", "C", "B", "A"), ("B", "A"), ("C", "A", "D"), ("A*", "B*"), ("C*", "D*", "A"), ("E", "F"), ("F", "E", "A")):
         part.ev()
         for step, k in enumerate(order):
             case = {"kind": "crystal-dimer", "seed": seed, "order": list(order[: step + 1])}
@@ -343,7 +350,7 @@ def crystal_dimer_checks(part, seed):
                               % (k, list(order[:step]), got, ref), case)
                     break
             part.outcome(("crystal-dimer", k, len(unique)))
-    part.nstates(4)
+    part.nstates(6)
 
 
 def run(ctx):
